@@ -443,10 +443,8 @@ class Rod1D(ExactSolver):
             for n in range(self.Nsum):
                 if (n == 0):
                     muinit = 0.1
-                    muasym = 0
                 else:
                     muinit = n * np.pi
-                    muasym = n * np.pi + a / ((1 + a) * n * np.pi)  # mu_n for n >> 1
                 mu = fsolve(func, muinit)[0]
                 self.kn[n] = mu / self.L  # wave number
                 Nn = (2 * mu + np.sin(2 * mu)) / (4 * self.kn[n])
